@@ -413,7 +413,7 @@ func (ex *Exec) rangeNext(st *State, fr *Frame, ins *ssa.Next) Value {
 		*ni.pos = p
 		fr.env[ins.Iter] = ni
 		tup := ins.Type().(*types.Tuple)
-		return TupleV{tFalse, zeroValue(tup.At(1).Type()), zeroValue(tup.At(2).Type())}
+		return TupleV{tFalse, zeroSafe(tup.At(1).Type()), zeroSafe(tup.At(2).Type())}
 	}
 	*ni.pos = p + 1
 	fr.env[ins.Iter] = ni
